@@ -9,17 +9,17 @@ NOTE_COMMON = ("trusted: Lean 4.33 kernel (axioms propext/Classical.choice/Quot.
 
 P = {
  "C01": dict(
-  text="85 Lean theorems about the executable models of every arithmetic, ordering and bit method of num.Uint128 and num.Int128 "
+  text="89 Lean theorems about the executable models of every arithmetic, ordering and bit method of num.Uint128 and num.Int128 "
        "(hi/lo words as BitVec 64, math/bits by its contracts, the six division entry points and three kernels transcribed "
        "separately, dispatch threshold from the regenerated Facts): add/sub/inc/dec/mul and their 64-bit forms = the operation "
        "mod 2^128, all comparison predicates = the order on toNat/toInt, and/or/xor/not/andNot on BitVec 128, shifts for every "
-       "count, bit queries incl. onesCount_spec, division by zero panics and nothing else does, division correct on the fast "
-       "paths and on the whole binary path unconditionally, signed layer (neg/abs/Min fixed points, tdiv/tmod). ~200k lines "
-       "per quick run; a second pass histograms dispatch path x correction counts and fails if a path stops being reached.",
-  note="2 of 87 obligations are NOT discharged: the contracts of the two Knuth kernels (Divlu64Spec for divmod128by64, Div128Spec "
-       "for the n.hi != 0 branch of divmod128by128) are named hypotheses of divMod_spec_partial / idivMod_spec_partial (full "
-       "statement kept as divMod_spec_Statement); on those paths the evidence is the correspondence run with every path and "
-       "correction count hit on each run. Int128.Div64 has no toInt theorem. math/bits contracts trusted.",
+       "count, bit queries incl. onesCount_spec, division by zero panics and nothing else does, divMod_spec unconditionally "
+       "(both Knuth kernels proved: divmod128by64 through the correction-loop invariant, divmod128by128 through the estimate "
+       "lemma q <= qhat <= q+1; the binary kernel; the dispatch), q*n+r = u, signed layer (neg/abs/Min fixed points, tdiv/tmod "
+       "incl. Div64). ~200k lines per quick run; a second pass histograms dispatch path x correction counts and fails if a "
+       "path stops being reached.",
+  note="math/bits contracts (Add64, Sub64, Mul64, Len64, LeadingZeros64, TrailingZeros64, OnesCount64) are trusted as documented; "
+       "the float/big.Int/string conversions belong to C02.",
   ref="DESIGN.md section 5 C01"),
  "C11": dict(
   text="22 Lean theorems about the heap model of errs.Error (nodes with message/cause/next, Append transcribed with its cursor, "
@@ -182,14 +182,16 @@ P = {
        "non-representable results is compared model-vs-code only.",
   ref="DESIGN.md section 5 C03, section 0"),
  "C07": dict(
-  text="22 Lean theorems, generic over rectangle laws proved from C18 and instantiated at Int and Rat: after any history the ids "
+  text="25 Lean theorems, generic over rectangle laws proved from C18 and instantiated at Int and Rat: after any history the ids "
        "reported by All equal the specification's multiset (abs_run, size_run), each of the 8 Find* queries (plain and matched) "
        "equals the filter of the stored nodes by the geom predicate, each boolean query is true iff its Find* is non-empty, "
-       "insert/remove node-level refinement, splitting depth bounded by W+H for integer rectangles. The model (outside list, "
+       "insert/remove node-level refinement, fuel_suffices_int / fuel_independent_int (the fuelled model never runs out on integer "
+       "rectangles, for every history). The model (outside list, "
        "auto-Reorganize, swap-remove, thresholds) is run against quadtree over int and float64 (exact dyadic inputs).",
   note="the same node inserted twice is two entries; nodes whose Bounds change while stored are outside the contract "
-       "(hypothesis OpOK); lifting the depth bound to whole histories is argued, not proved; float rounding excluded by exact "
-       "dyadic inputs.",
+       "(hypothesis OpOK); float rounding is outside the exact-arithmetic theorems: the fractional-float clause is evidenced "
+       "by the floatscan oracle (non-dyadic floats vs a linear scan with the library's own predicates); 3 inputs with "
+       "rectangles whose positive size is absorbed by rounding are KNOWN FINDINGS.",
   ref="DESIGN.md section 5 C07"),
  "C08": dict(
   text="34 Lean theorems about the executable model of xmath.BitSet (words as BitVec 64, every loop transcribed): per-operation "
@@ -218,7 +220,9 @@ P = {
        "transform_maps_vertices. ~800k exact (dyadic) cases per quick run compared bit-exactly.",
   note="float rounding is outside the theorems (inputs are chosen so every float operation is exact, asserted with big.Rat); "
        "Rotate/RotateByDegrees with libm sin/cos only through a 16-ulp implementation-side oracle; integer overflow of X+Width "
-       "not modelled.",
+       "not modelled; the floating-point clause is evidenced by the floatspec oracle (point-set specifications evaluated on "
+       "extreme representable points of non-dyadic rectangles); 4 inputs where Union/Intersect's recomputed far edge is one "
+       "ulp off are KNOWN FINDINGS by call site (other inputs of the class are counted, not alarmed).",
   ref="DESIGN.md section 5 C18"),
  "C20": dict(
   text="29 Lean theorems about the executable model of txt.NaturalCmp for all byte strings and both case modes: antisymmetry, "
